@@ -22,8 +22,15 @@ def gen_programs(ctx, n, **kw):
     for i in range(n):
         g = coregen.Gen(ctx.rng, **kw)
         tree = g.program()
-        tree = coregen.assign_spans(tree, "main.ms")
-        out.append({"name": "gen%d" % i, "files": {"main.ms": coregen.render_ms(tree)}, "entry": "main.ms", "tree": tree})
+        # half of the programs are written with only the parentheses the precedence table requires:
+        # the parser must build the same tree (|| < && < comparisons < + - < * / % < prefix)
+        coregen.MINIMAL_PARENS = (i % 2 == 1)
+        try:
+            tree = coregen.assign_spans(tree, "main.ms")
+            src = coregen.render_ms(tree)
+        finally:
+            coregen.MINIMAL_PARENS = False
+        out.append({"name": "gen%d" % i, "files": {"main.ms": src}, "entry": "main.ms", "tree": tree, "minimal_parens": i % 2 == 1})
     return out
 
 
